@@ -1,7 +1,7 @@
 """
 C03 — decode/encode round trip: quantisation bound, range refusal, canonical fixpoint.
 
-Theorems: lean/BufrModel/Props/C03.lean (round half even is within half a unit and characterised;
+Theorems: lean/BufrModel/Props/C03.lean, C03Fields.lean, C03Walk.lean (round half even is within half a unit and characterised;
 quantisation bound; on-grid values re-quantise exactly; out-of-range is refused — never wrapped, never
 clipped —, in-range is accepted; all-ones reads back missing; missing round trip; element round trips
 and fixpoints for numeric, code/flag, character and new-reference-value fields, with the two documented
@@ -11,8 +11,12 @@ Tie (implementation vs model, same inputs — the model gets the EXACT decimal e
       203YYY new reference value} x probe value {min, min-eps, just below min-1/2, min-1, max, max+eps,
       the all-ones pattern (+eps), just below 2^w, 2^w, multiples of 2^w (wrap probes), exact ties
       (dyadic, so that IEEE arithmetic sees them), off-grid, on-grid, missing} x layout {uncompressed;
-      compressed 2-3 subsets: all equal / next to in-range values / next to missing}; plus code/flag and
-      character probes.  Compared: refusal vs acceptance (error family), data bits, read-back values.
+      compressed 2-3 subsets: all equal / next to in-range values / next to missing / both}; plus code/flag and
+      character probes, the special packed integers 2^k - 1 / 2^k around the Table B and the effective width under every
+      width modifier, and the families of harness/c03fields.py (203YYY new reference values at their own boundary,
+      replication factors, 204YYY / 206YYY fields, bit-map bits, 205YYY strings, code/flag under 201/202/207).  Every value
+      position of a case has a column specification; the oracle and the comparison look at all of them.
+      Compared: refusal vs acceptance (error family), data bits, read-back values.
   (b) whole-message fixpoint on the corpus: b1 = E(render(D(b))), E(render(D(b1))) == b1 byte for byte;
       the model re-encodes its own decode of b and must give the data bits of b1.
   (c) every message the Encoder produces from generated values (shared pipeline): E(render(D(b))) == b;
@@ -36,6 +40,7 @@ from harness import core, tables_io
 from harness import coder_io as C
 from harness import coderprops as P
 from harness import encprops as E
+from harness import c03fields as F
 
 PROP = 'C03'
 
@@ -47,8 +52,13 @@ META = dict(
          'subtracted is refused (never wrapped, never clipped) and one inside is written as it is; the all-ones pattern reads back as '
          'missing; missing round-trips for w > 1; numeric, code/flag, character and new-reference fields: encode-then-decode gives the '
          'quantised value / padded string, decode-then-encode reproduces the bits (exceptions proved as such: 1-bit fields, minus-zero '
-         'reference). Correspondence: element sweep over the numeric Table B elements x modifiers x boundary / tie / off-grid probes, '
-         'uncompressed and compressed, implementation vs model (exact decimal of each double) on refusal, bits and read-back; '
+         'reference); the sign-and-magnitude new reference value of 203YYY is accepted iff its magnitude fits YYY-1 bits (uncompressed and compressed) and reads '
+         'back unchanged; for any coder the walk hands the numeric primitive the effective width only, a packed integer below the all-ones pattern of THAT width '
+         '(e.g. all ones on the Table B width under a widening 201/207) is written as it is and read back as the number, uncompressed and in compressed columns of any '
+         'legal increment width. Correspondence: element sweep over the numeric Table B elements x modifiers x boundary / tie / off-grid / special-integer (2^k-1, 2^k around the '
+         'Table B and the effective width) probes and over every other kind of value the encoder writes (new reference values, replication factors, associated and skipped '
+         'fields, bit-map bits, 205/208 strings, code/flag under operators), uncompressed and compressed (all equal / differing / with a missing entry), every value position '
+         'checked, implementation vs model (exact decimal of each double) on refusal, bits and read-back; '
          'whole-message fixpoints E(D(E(D(b)))) = E(D(b)) on the corpus and E(D(b)) = b on generated messages, model re-encode tied to '
          'the implementation bytes; oracle evaluated on the implementation alone with exact rationals.',
     technique='Lean 4 theorems (integer arithmetic, omega/ring-free case analysis over the primitives) + checked model/implementation correspondence + exact-rational oracle',
@@ -62,51 +72,12 @@ META = dict(
 
 CHUNK = 400
 MODS = ['none', '201+', '201-', '202', '207', '203']
+WIDTH_MODS = ['201+', '201+', '201-', '207', '207', '201+207', '201+202']
 KINDS = ['min', 'min-eps', 'below-min', 'min-1', 'max', 'max+eps', 'allones', 'allones+eps', 'below-2w', '2w', 'wrap', 'neg-wrap',
-         'tie', 'tie', 'offgrid', 'offgrid', 'ongrid', 'missing']
-LAYOUTS = ['u', 'u', 'c-equal', 'c-mixed', 'c-missing']
-
-
-# ---------------------------------------------------------------------------------------------
-class Sweep(object):
-    """one probe: template, per-subset python inputs, field parameters of the probed column"""
-    __slots__ = ('ids', 'n', 'comp', 'inputs', 'p', 'w', 's', 'r', 'kind', 'mod', 'layout', 'grid', 'eid', 'fk', 'idx', 'nbytes')
-
-    def replay(self):
-        return {'sweep': True, 'ids': self.ids, 'n_subsets': self.n, 'compressed': self.comp, 'p': self.p,
-                'inputs': [[repr_value(x) for x in vs] for vs in self.inputs], 'w': self.w, 's': self.s, 'r': self.r,
-                'kind': self.kind, 'mod': self.mod, 'layout': self.layout, 'grid': self.grid, 'fk': self.fk,
-                'nbytes': self.nbytes, 'case_index': self.idx}
-
-
-def repr_value(x):
-    if isinstance(x, float):
-        return {'f': x.hex()}
-    return x
-
-
-def unrepr_value(x):
-    if isinstance(x, dict) and 'f' in x:
-        return float.fromhex(x['f'])
-    return x
-
-
-def decoder_value(q, s):
-    """the value a decoder returns for scaled integer q (decoder.py: `value /= scale_powered`)"""
-    if s == 0:
-        return q
-    return q / (1.0 * 10 ** s)
-
-
-def value_for(t, s, r):
-    """python input whose exact scaled value is (close to) t + r, t a Fraction in raw units"""
-    T = t + r
-    if s == 0:
-        assert T.denominator == 1
-        return int(T)
-    if T.denominator == 1:
-        return decoder_value(int(T), s)
-    return float(E.scaled(T, -s))
+         'tie', 'tie', 'offgrid', 'offgrid', 'ongrid', 'missing', 'pow2', 'pow2']
+LAYOUTS = F.LAYOUTS
+Sweep, Col = F.Sweep, F.Col
+repr_value, unrepr_value, decoder_value, value_for = F.repr_value, F.unrepr_value, F.decoder_value, F.value_for
 
 
 def dyadic_tie(rng, w, s, r):
@@ -126,7 +97,7 @@ def dyadic_tie(rng, w, s, r):
     return v
 
 
-class SweepGen(object):
+class SweepGen(F.Families):
     def __init__(self):
         b, d = tables_io.read_group()
         self.b = b
@@ -173,9 +144,15 @@ class SweepGen(object):
             return [203000 + yb, e, 203255, e, 203000], nr, E.eff_params(b, e, newref=nr)
         raise AssertionError(mod)
 
-    def probe(self, rng, kind, w, s, r):
-        """-> (python value, on_grid) or None when the kind does not apply"""
+    def probe(self, rng, kind, w, s, r, nb=None):
+        """-> (python value, on_grid) or None when the kind does not apply.  nb = Table B width of the element"""
         top = (1 << w) - 1
+        if kind == 'pow2':
+            # the special packed integers 2^k - 1, 2^k and neighbours, k around the Table B width, the effective width, in between
+            nb = w if nb is None else nb
+            k = rng.choice([nb, nb, nb] + F.pow2_exponents(rng, nb, w))
+            raw = max((1 << k) + rng.choice([-1, -1, -1, 0, 0, 1, -2]), 0)
+            return value_for(Fraction(raw), s, r), True
         eps = Fraction(rng.choice([5, 10, 20, 30, 40, 45]), 100)
         big = (1 << w) + abs(r) >= 2 ** 46      # off-grid offsets would drown in the double's rounding
         frac_ok = s != 0 and not big
@@ -232,31 +209,35 @@ class SweepGen(object):
         ids, nr, (w, s, r) = m
         if not (1 <= w <= 64) or abs(s) > 20:
             return None
-        pr = self.probe(rng, kind, w, s, r)
+        pr = self.probe(rng, kind, w, s, r, int(self.b[e][4]))
         if pr is None:
             return None
         x, on = pr
-        c = Sweep()
-        c.ids, c.w, c.s, c.r, c.kind, c.mod, c.layout, c.eid, c.fk, c.nbytes = ids, w, s, r, kind, mod, layout, e, 'n', 0
-        c.p = 1 if nr is not None else 0
-        c.comp = layout != 'u'
-        c.n = 1 if layout == 'u' else rng.choice([2, 3])
+        return self.numeric_layout(rng, e, ids, nr, w, s, r, x, on, layout, mod, kind)
+
+    def numeric_from_raw(self, rng, e, ids, nr, w, s, r, raw, layout, mod, kind):
+        return self.numeric_layout(rng, e, ids, nr, w, s, r, value_for(Fraction(raw), s, r), True, layout, mod, kind)
+
+    def numeric_layout(self, rng, e, ids, nr, w, s, r, x, on, layout, mod, kind):
+        """the probed element in one of the layouts: uncompressed; compressed all equal / next to in-range values /
+        next to a missing entry / next to in-range values AND a missing entry"""
         top = (1 << w) - 1
-        col = [x] * c.n
-        grid = [on] * c.n
-        if layout == 'c-mixed':
-            for i in range(1, c.n):
-                col[i] = value_for(Fraction(rng.choice([0, max(top - 1, 0), rng.randint(0, max(top - 1, 0)), rng.randint(0, max(top - 1, 0)), top])), s, r)
-                grid[i] = True
-            if rng.random() < 0.5:
-                col.reverse()
-                grid.reverse()
-        elif layout == 'c-missing':
-            if w > 1:
-                col[c.n - 1] = None
-                grid[c.n - 1] = True
-        c.inputs = [([nr] if nr is not None else []) + [v] for v in col]
-        c.grid = grid
+        if w <= 1 and layout in ('c-missing', 'c-mixed-missing'):
+            layout = 'c-mixed'
+        cols, gens = [], []
+        if nr is not None:
+            yb = ids[0] % 1000
+            cols.append(Col('r', yb, role='newref'))
+            gens.append(lambda g: nr)
+        p = len(cols)
+        cols.append(Col('n', w, s, r, role='element'))
+        gens.append(lambda g: value_for(Fraction(g.choice([0, max(top - 1, 0), g.randint(0, max(top - 1, 0)), g.randint(0, max(top - 1, 0)), top])), s, r))
+        c = self.assemble(rng, ids, cols, gens, p, x, layout, mod, kind, fixed=set(range(p)), extra={p: (x, on)})
+        if layout in ('c-equal', 'c-missing'):
+            for i, row in enumerate(c.inputs):
+                if row[p] is not None:
+                    c.gridm[i][p] = on
+        c.eid = e
         return c
 
     # -- code / flag and character probes -------------------------------------------------------
@@ -265,19 +246,8 @@ class SweepGen(object):
         w = int(self.b[e][4])
         top = (1 << w) - 1
         x = rng.choice([0, max(top - 1, 0), top, top + 1, -1, 2 * (top + 1) + 1, rng.randint(0, top), None if w > 1 else 0])
-        c = Sweep()
-        c.ids, c.w, c.s, c.r, c.kind, c.mod, c.layout, c.eid, c.fk, c.nbytes = [e], w, 0, 0, 'codeflag', 'none', layout, e, 'c', 0
-        c.p = 0
-        c.comp = layout != 'u'
-        c.n = 1 if layout == 'u' else rng.choice([2, 3])
-        col = [x] * c.n
-        if layout == 'c-mixed':
-            for i in range(1, c.n):
-                col[i] = rng.randint(0, max(top - 1, 0))
-        elif layout == 'c-missing' and w > 1:
-            col[-1] = None
-        c.inputs = [[v] for v in col]
-        c.grid = [True] * c.n
+        c = self.assemble(rng, [e], [Col('c', w, role='codeflag')], [lambda g: g.randint(0, max(top - 1, 0))], 0, x, layout, 'none', 'codeflag')
+        c.eid = e
         return c
 
     def string_case(self, rng, layout):
@@ -288,18 +258,10 @@ class SweepGen(object):
             nbytes = rng.randint(1, 10)
             ids = [208000 + nbytes, e, 208000]
 
-        def s(k):
-            return ''.join(chr(rng.choice([rng.randint(0x21, 0x7e), rng.randint(0xa1, 0xfe)])) for _ in range(k))
-        c = Sweep()
-        c.ids, c.w, c.s, c.r, c.kind, c.mod, c.layout, c.eid, c.fk, c.nbytes = ids, nbytes * 8, 0, 0, 'string', 'none', layout, e, 's', nbytes
-        c.p = 1 if len(ids) > 1 and False else 0
-        c.comp = layout != 'u'
-        c.n = 1 if layout == 'u' else rng.choice([2, 3])
-        col = [rng.choice([s(nbytes), s(rng.randint(0, nbytes)), s(nbytes + rng.randint(1, 4)), '', None]) for _ in range(c.n)]
-        if layout == 'c-equal':
-            col = [col[0]] * c.n
-        c.inputs = [[v] for v in col]
-        c.grid = [True] * c.n
+        def gen(g):
+            return g.choice([self.text(g, nbytes), self.text(g, g.randint(0, nbytes)), self.text(g, nbytes + g.randint(1, 4)), '', None])
+        c = self.assemble(rng, ids, [Col('s', nbytes * 8, nbytes=nbytes, role='string')], [gen], 0, gen(rng), layout, 'none', 'string')
+        c.eid = e
         return c
 
 
@@ -318,59 +280,100 @@ def exact_raw(x, s, r):
     return q - r, near
 
 
+def in_range(col, x):
+    """(raw, near_tie, out_of_range) of python input x for column `col` (None input: (None, False, False))"""
+    if x is None:
+        return None, False, False
+    if col.fk == 'r':
+        return x, False, abs(x) > (1 << (col.w - 1)) - 1
+    if col.fk == 'k':
+        return x, False, x != 0
+    if col.fk == 's':
+        return None, False, False
+    raw, near = exact_raw(x, col.s, col.r)
+    return raw, near, raw < 0 or raw > (1 << col.w) - 1
+
+
+def factor_all_ones(c):
+    """a delayed replication factor that coincides with the all-ones pattern of its field"""
+    return any(col.role == 'factor' and col.w > 1 and all(vs[j] == (1 << col.w) - 1 for vs in c.inputs) for j, col in enumerate(c.cols))
+
+
 def oracle(c, impl_status, dec):
-    """the property on the implementation alone.  dec: per-subset decoded values (or None when refused).
-    -> (kind, text) or None; also returns observation tags through `tags`"""
+    """the property on the implementation alone, for EVERY value position of the case.
+    dec: per-subset decoded values (or None when refused).  -> ((kind, text) or None, tags, failing column or None)"""
     tags = []
-    top = (1 << c.w) - 1
-    if c.fk == 's':
-        if impl_status != 'ok':
-            return ('string-refused', 'a character value is refused (%s)' % impl_status), tags
-        for i, vs in enumerate(c.inputs):
-            x = vs[c.p]
-            want = b'\xff' * c.nbytes if x is None else (x.encode('latin-1')[:c.nbytes]).ljust(c.nbytes, b' ')
-            got = dec[i][c.p]
-            if got != want:
-                return ('string', 'string %r reads back %r, expected %r (field of %d bytes)' % (x, got, want, c.nbytes)), tags
-        return None, tags
-    any_out = False
-    for i, vs in enumerate(c.inputs):
-        x = vs[c.p]
-        if x is None:
-            if impl_status == 'ok' and dec[i][c.p] is not None:
-                return ('missing', 'missing reads back %r (width %d)' % (dec[i][c.p], c.w)), tags
-            continue
-        raw, near = exact_raw(x, c.s, c.r)
-        out = raw < 0 or raw > top
-        if near:
-            tags.append('near-tie')
-        if out and not near:
-            any_out = True
-        if impl_status != 'ok':
-            continue
-        d = dec[i][c.p]
-        if d is None:
-            if c.w > 1 and (raw == top or (near and abs(raw - top) <= 1)):
-                tags.append('allones-reads-missing')
+    reasons = False
+    ok = impl_status == 'ok'
+    for j, col in enumerate(c.cols):
+        top = (1 << col.w) - 1
+        where = '' if len(c.cols) == 1 else ' [value %d: %s]' % (j, col.role)
+        if col.fk == 's':
+            if not ok:
                 continue
-            return ('lost', 'value %r (raw %d of %d bits) reads back missing' % (x, raw, c.w)), tags
-        if isinstance(d, bytes):
-            return ('type', 'numeric value reads back bytes'), tags
-        bound = E.scaled(Fraction(1, 2), -c.s) + Fraction(math.ulp(float(d)) if isinstance(d, float) else 0)
-        err = abs(Fraction(d) - Fraction(x))
-        if err > bound:
-            return ('altered', 'value %r reads back %r: off by %.6g units of the last scaled digit (width %d scale %d ref %d, raw %d%s)' % (
-                x, d, float(E.scaled(err, c.s)), c.w, c.s, c.r, raw, ', out of range' if out else '')), tags
-        if c.grid[i] and not out and d != x:
-            return ('grid', 'on-grid value %r reads back %r' % (x, d)), tags
-        if out:
-            tags.append('out-of-range-carried-exactly' if c.comp else 'out-of-range-accepted')
-    if impl_status == 'ok' and any_out and not c.comp:
-        return ('not-refused', 'out-of-range value accepted in uncompressed data: inputs %r width %d scale %d ref %d' % (
-            [vs[c.p] for vs in c.inputs], c.w, c.s, c.r)), tags
-    if impl_status != 'ok':
-        tags.append('refused-out-of-range' if any_out else 'refused')
-    return None, tags
+            for i, vs in enumerate(c.inputs):
+                x = vs[j]
+                want = b'\xff' * col.nbytes if x is None else (x.encode('latin-1')[:col.nbytes]).ljust(col.nbytes, b' ')
+                got = dec[i][j]
+                if got != want:
+                    return ('string', 'string %r reads back %r, expected %r (field of %d bytes)%s' % (x, got, want, col.nbytes, where)), tags, j
+            continue
+        any_out = False
+        for i, vs in enumerate(c.inputs):
+            x = vs[j]
+            if x is None:
+                if col.fk in 'rk':
+                    reasons = True
+                    if ok:
+                        return ('missing-accepted', 'a missing %s is accepted and reads back %r' % (col.role, dec[i][j])), tags, j
+                    continue
+                if col.role == 'factor':
+                    reasons = True
+                if ok and dec[i][j] is not None:
+                    if col.w == 1 and dec[i][j] == 1:
+                        tags.append('onebit-missing-reads-1')
+                        continue
+                    return ('missing', 'missing reads back %r (width %d)%s' % (dec[i][j], col.w, where)), tags, j
+                continue
+            raw, near, out = in_range(col, x)
+            if near:
+                tags.append('near-tie')
+                reasons = True
+            if out and not near:
+                any_out = True
+                reasons = True
+            if not ok:
+                continue
+            d = dec[i][j]
+            if col.fk in 'rk':
+                if d != x or isinstance(d, bool) or not isinstance(d, int):
+                    return ('altered', '%s %r reads back %r (%s of %d bits%s)' % (
+                        col.role, x, d, 'sign and magnitude' if col.fk == 'r' else 'constant', col.w, ', does not fit' if out else '')), tags, j
+                continue
+            if d is None:
+                if col.w > 1 and (raw == top or (near and abs(raw - top) <= 1)):
+                    tags.append('allones-reads-missing')
+                    continue
+                return ('lost', 'value %r (raw %d of %d bits) reads back missing%s' % (x, raw, col.w, where)), tags, j
+            if isinstance(d, bytes):
+                return ('type', 'numeric value reads back bytes' + where), tags, j
+            bound = E.scaled(Fraction(1, 2), -col.s) + Fraction(math.ulp(float(d)) if isinstance(d, float) else 0)
+            err = abs(Fraction(d) - Fraction(x))
+            if err > bound:
+                return ('altered', 'value %r reads back %r: off by %.6g units of the last scaled digit (width %d scale %d ref %d, raw %d%s)%s' % (
+                    x, d, float(E.scaled(err, col.s)), col.w, col.s, col.r, raw, ', out of range' if out else '', where)), tags, j
+            if c.gridm[i][j] and not out and d != x:
+                return ('grid', 'on-grid value %r reads back %r%s' % (x, d, where)), tags, j
+            if out:
+                tags.append('out-of-range-carried-exactly' if c.comp else 'out-of-range-accepted')
+        if ok and any_out and (not c.comp or col.fk == 'r'):
+            return ('not-refused', 'out-of-range value accepted in %s data: inputs %r width %d scale %d ref %d%s' % (
+                'compressed' if c.comp else 'uncompressed', [vs[j] for vs in c.inputs], col.w, col.s, col.r, where)), tags, j
+    if not ok:
+        if not reasons and all(col.fk == 's' for col in c.cols):
+            return ('string-refused', 'a character value is refused (%s)' % impl_status), tags, 0
+        tags.append('refused-out-of-range' if reasons else 'refused')
+    return None, tags, None
 
 
 def impl_roundtrip(c):
@@ -391,7 +394,7 @@ def impl_roundtrip(c):
 
 
 def eval_sweep(drv, treq, cases):
-    """-> list of (case, failure or None, tags, nfi)"""
+    """-> list of (case, failure or None, tags, nfi, failing column)"""
     reqs = [treq]
     impl = []
     for c in cases:
@@ -410,17 +413,28 @@ def eval_sweep(drv, treq, cases):
     dec = drv.batch(reqs)
     out = []
     for c, (st, b, dv), m, k in zip(cases, impl, enc, pos):
-        if st == 'ok' and not isinstance(dv, list):
-            kind = 'undecodable'
-            col = [vs[c.p] for vs in c.inputs]
-            if c.comp and c.fk in 'nc' and c.w > 1 and None in col and all(
-                    x is None or exact_raw(x, c.s, c.r)[0] == (1 << c.w) - 1 for x in col):
-                # every present entry is the all-ones pattern and an entry is missing: minimum = all ones, width != 0
-                kind = 'undecodable-allones-next-to-missing'
-            out.append((c, (kind, 'the decoder fails (%s) on what the encoder produced; inputs %r (width %d scale %d ref %d)' % (
-                dv, col, c.w, c.s, c.r)), [], False))
-            continue
-        fail, tags = oracle(c, st, dv)
+        col = [vs[c.p] for vs in c.inputs]
+        undecodable = st == 'ok' and not isinstance(dv, list)
+        tags = []
+        fail = None
+        fj = c.p
+        if undecodable:
+            if factor_all_ones(c) and core.is_lib(dv):
+                # the encoder writes the all-ones factor, the decoder reads it as missing and refuses with a library error:
+                # nothing is altered silently; recorded (soft), compared with the model below
+                tags.append('factor-all-ones:decoder-refuses')
+            else:
+                kind = 'undecodable'
+                pc = c.cols[c.p]
+                if c.comp and pc.fk in 'nc' and pc.w > 1 and None in col and all(
+                        x is None or exact_raw(x, pc.s, pc.r)[0] == (1 << pc.w) - 1 for x in col):
+                    # every present entry is the all-ones pattern and an entry is missing: minimum = all ones, width != 0
+                    kind = 'undecodable-allones-next-to-missing'
+                out.append((c, (kind, 'the decoder fails (%s) on what the encoder produced; inputs %r (width %d scale %d ref %d)' % (
+                    dv, col, c.w, c.s, c.r)), [], False, c.p))
+                continue
+        else:
+            fail, tags, fj = oracle(c, st, dv)
         nfi = False
         if fail is None:
             # correspondence with the model
@@ -436,7 +450,12 @@ def eval_sweep(drv, treq, cases):
                     why = 'data bits differ (implementation %s.., model %s..)' % (ib[:48], mb[:48])
                 else:
                     md = dec[k]
-                    if 'err' in md:
+                    if undecodable:
+                        if 'err' not in md:
+                            why = 'the decoder fails (%s) where the model decoder succeeds' % dv
+                        elif C.model_err(md) != dv:
+                            why = 'decoder error family: implementation %s, model %s' % (dv, C.model_err(md))
+                    elif 'err' in md:
                         why = 'model decoder fails on the model bits: %s' % md['err']
                     else:
                         for i, (a, mm) in enumerate(zip(dv, md['subsets'])):
@@ -447,10 +466,37 @@ def eval_sweep(drv, treq, cases):
             if why and lenient:
                 tags.append('lenient-disagreement')
             elif why:
-                fail = ('model', why + '; inputs %r' % ([vs[c.p] for vs in c.inputs],))
+                fail = ('model', why + '; inputs %r' % (col,))
                 nfi = True
-        out.append((c, fail, tags, nfi))
+                fj = c.p
+        out.append((c, fail, tags, nfi, fj))
     return out
+
+
+FAMILIES = ['newref', 'newref', 'newref', 'assoc', 'assoc', 'skipped', 'factor', 'factor', 'bitmap', 'str205', 'cfmod', 'cfmod']
+SOFT_KINDS = {'factor-all-ones:decoder-refuses': 'undecodable-factor-allones'}
+
+
+def family_case(g, rng, fam, layout, heavy=False):
+    if fam == 'newref':
+        if layout != 'u' and rng.random() < 0.05:
+            layout = 'c-newref-differs'
+        return g.newref_case(rng, layout)
+    if fam == 'assoc':
+        return g.assoc_case(rng, layout)
+    if fam == 'skipped':
+        return g.skipped_case(rng, layout)
+    if fam == 'factor':
+        if layout != 'u' and rng.random() < 0.05:
+            layout = 'c-factor-differs'
+        return g.factor_case(rng, layout, heavy=heavy)
+    if fam == 'bitmap':
+        return g.bitmap_case(rng, layout)
+    if fam == 'str205':
+        return g.str205_case(rng, layout)
+    if fam == 'cfmod':
+        return g.cfmod_case(rng, layout)
+    raise AssertionError(fam)
 
 
 def sweep_chunk(args):
@@ -459,20 +505,29 @@ def sweep_chunk(args):
     g = SweepGen()
     cases = []
     if specs is None:
-        # seeded triples
+        # seeded: element probes, the "every written value" families, width modifier x special integers
         while len(cases) < CHUNK:
             r = rng.random()
             layout = rng.choice(LAYOUTS)
-            if r < 0.06:
+            if r < 0.05:
                 c = g.codeflag_case(rng, layout)
-            elif r < 0.12:
+            elif r < 0.10:
                 c = g.string_case(rng, layout)
+            elif r < 0.40:
+                c = family_case(g, rng, rng.choice(FAMILIES), layout, heavy=tier != 'quick' and rng.random() < 0.05)
+            elif r < 0.415:
+                cases.extend(g.width_cases(rng, rng.choice(g.numeric), rng.choice(WIDTH_MODS)))
+                continue
             else:
                 c = g.numeric_case(rng, rng.choice(g.numeric), rng.choice(MODS), rng.choice(KINDS), layout)
             if c is not None:
                 cases.append(c)
     else:
         for e, mod, kind in specs:
+            if kind == 'pow2*':
+                # every special packed integer of the pair, uncompressed and in one compressed shape each
+                cases.extend(g.width_cases(rng, e, mod, layouts=['u', rng.choice(F.COMP_LAYOUTS)]))
+                continue
             for layout in ('u', rng.choice(LAYOUTS[2:])):
                 c = g.numeric_case(rng, e, mod, kind, layout)
                 if c is not None:
@@ -482,21 +537,24 @@ def sweep_chunk(args):
     drv = core.Driver()
     treq = tables_io.group_request()
     res = eval_sweep(drv, treq, cases)
-    out = {'counts': {}, 'cases': [], 'violations': [], 'n': len(cases)}
+    out = {'counts': {}, 'cases': [], 'violations': [], 'n': len(cases), 'soft': []}
 
     def count(key, n=1):
         out['counts'][key] = out['counts'].get(key, 0) + n
     seen = {}
-    for c, fail, tags, nfi in res:
+    for c, fail, tags, nfi, fj in res:
         count('mod:' + c.mod)
         count('kind:' + c.kind)
         count('layout:' + c.layout)
         for t in set(tags):
             count(('compressed:' if c.comp else 'uncompressed:') + t)
+            if t in SOFT_KINDS and not any(sk == SOFT_KINDS[t] for sk, _ in out['soft']):
+                out['soft'].append((SOFT_KINDS[t], c.replay()))
         out['cases'].append(({'ids': c.ids, 'kind': c.kind, 'layout': c.layout, 'inputs': [[repr_value(x) for x in vs] for vs in c.inputs]},
                              any(vs[c.p] is not None for vs in c.inputs)))
         if fail:
-            sig = {'stage': 'sweep', 'kind': fail[0], 'compressed': bool(c.comp), 'field': c.fk}
+            col = c.cols[fj if fj is not None and fj < len(c.cols) else c.p]
+            sig = {'stage': 'sweep', 'kind': fail[0], 'compressed': bool(c.comp), 'field': col.fk, 'role': col.role}
             key = json.dumps(sig, sort_keys=True)
             seen[key] = seen.get(key, 0) + 1
             if seen[key] > 1:
@@ -647,12 +705,13 @@ def run(ctx):
     quick = ctx.tier == 'quick'
     jobs = []
     if quick:
-        jobs += [('sweep', (ctx.seed, k, None, ctx.tier)) for k in range(4000 // CHUNK)]
+        jobs += [('sweep', (ctx.seed, k, None, ctx.tier)) for k in range(6000 // CHUNK)]
     else:
         g = SweepGen()
         specs = [(e, mod, kind) for e in g.numeric for mod in MODS for kind in sorted(set(KINDS))]
+        specs += [(e, mod, 'pow2*') for e in g.numeric for mod in sorted(set(WIDTH_MODS))]
         jobs += [('sweep', (ctx.seed, k, specs[i:i + 600], ctx.tier)) for k, i in enumerate(range(0, len(specs), 600))]
-        jobs += [('sweep', (ctx.seed, 100000 + k, None, ctx.tier)) for k in range(20)]
+        jobs += [('sweep', (ctx.seed, 100000 + k, None, ctx.tier)) for k in range(40)]
     files = [p for p in P.corpus_files(ctx.tier, ctx.rng('corpus'), quick_n=30)]
     jobs += [('corpus', (p,)) for p in files]
     ngen = 4 if quick else 40
@@ -681,6 +740,12 @@ def run(ctx):
             ctx.case(obj, nontrivial=nontriv, sample=nontriv and len(ctx.samples) < 6 and len(json.dumps(obj)) < 800)
         for what, rep, sig, nfi in out['violations']:
             ctx.violation(what, rep, signature=sig, no_failing_input=nfi)
+        for kind, rep in out.get('soft', []):
+            # observations that are reported only when KNOWN_FINDINGS.json lists them as open (else counted)
+            sig = {'stage': 'sweep', 'kind': kind}
+            ctx.count('observed:' + kind)
+            if any(kf.get('status') == 'open' and kf.get('property') == PROP and core.finding_matches(kf, sig) for kf in ctx.findings):
+                ctx.violation('element round trip (%s): ids %s inputs %s' % (kind, rep['ids'], str(rep['inputs'])[:120]), rep, signature=sig)
     # crafted foreign messages (minus zero)
     for o in foreign_minus_zero(ctx.seed, 12 if quick else 200):
         ctx.count('foreign-minus-zero')
@@ -711,14 +776,22 @@ def replay(ctx, path):
     treq = tables_io.group_request()
     if rep.get('sweep'):
         c = Sweep()
-        c.ids, c.n, c.comp, c.p = rep['ids'], rep['n_subsets'], rep['compressed'], rep['p']
+        c.ids, c.n, c.comp = rep['ids'], rep['n_subsets'], rep['compressed']
         c.inputs = [[unrepr_value(x) for x in vs] for vs in rep['inputs']]
-        c.w, c.s, c.r, c.kind, c.mod, c.layout, c.grid, c.fk = rep['w'], rep['s'], rep['r'], rep['kind'], rep['mod'], rep['layout'], rep['grid'], rep['fk']
-        c.nbytes, c.idx, c.eid = rep.get('nbytes', 0), rep.get('case_index', 0), 0
-        _, fail, tags, nfi = eval_sweep(drv, treq, [c])[0]
+        c.kind, c.mod, c.layout = rep['kind'], rep['mod'], rep['layout']
+        c.idx, c.eid = rep.get('case_index', 0), 0
+        if 'cols' in rep:
+            cols, gridm = [Col.load(l) for l in rep['cols']], rep['gridm']
+        else:   # replay files written before the per-column oracle
+            cols = [Col('r', rep['ids'][0] % 1000, role='newref')] * rep['p'] + [Col(rep['fk'], rep['w'], rep['s'], rep['r'], rep.get('nbytes', 0), 'element')]
+            gridm = [[True] * rep['p'] + [gv] for gv in rep['grid']]
+        c.finish(cols, rep['p'], gridm)
+        _, fail, tags, nfi, fj = eval_sweep(drv, treq, [c])[0]
         print('replay:', fail[1] if fail else 'round trip within the bound, implementation and model agree', tags)
         if fail:
-            ctx.violation('element round trip (%s): %s' % fail, rep, signature={'stage': 'sweep', 'kind': fail[0], 'compressed': bool(c.comp), 'field': c.fk},
+            col = c.cols[fj if fj is not None and fj < len(c.cols) else c.p]
+            ctx.violation('element round trip (%s): %s' % fail, rep,
+                          signature={'stage': 'sweep', 'kind': fail[0], 'compressed': bool(c.comp), 'field': col.fk, 'role': col.role},
                           no_failing_input=nfi)
         return
     if 'file' in rep:
